@@ -8,6 +8,7 @@ import Ztr.Model.Suites
 import Ztr.Model.Runner
 import Ztr.Model.Bytecode
 import Ztr.Model.Threads
+import Ztr.Model.Bracket
 /-!
 Line protocol between the Python harness and the executable model: one JSON object per line in,
 one JSON object per line out.  `op` selects the model component.  Unknown or malformed requests are
@@ -355,6 +356,31 @@ def opThreads (j : Json) : Except String Json := do
   let r := Ztr.Threads.run h
   return Json.mkObj [("reports", jNatss r.reports), ("spec", jNatss r.spec)]
 
+/-- `bracket`: the feature bracket on an abstract global state.
+`g` = [gcThr, gcDbg, tbFormat, tbPrint, trace, thrTrace, setTrace, profile, warn, stdout, stderr];
+`feats` = [["coverage", t] | ["profiling", p] | ["threshold", v] | ["debug", v] | ["traceback", f, p] | ["other"]];
+`warnAfterBody` = what the test phase leaves in the warning filters. -/
+def opBracket (j : Json) : Except String Json := do
+  let gv ← J.nats! j "g"
+  if gv.length ≠ 11 then throw "g must have 11 entries"
+  let a := gv.toArray
+  let g : Ztr.Bracket.G := ⟨a[0]!, a[1]!, a[2]!, a[3]!, a[4]!, a[5]!, a[6]!, a[7]!, a[8]!, a[9]!, a[10]!⟩
+  let feats ← (← J.arr! j "feats").toList.mapM (fun (x : Json) => do
+    let a ← x.getArr?
+    let tag ← a[0]!.getStr?
+    match tag with
+    | "coverage" => return Ztr.Bracket.Feat.coverage (← a[1]!.getNat?)
+    | "profiling" => return .profiling (← a[1]!.getNat?)
+    | "threshold" => return .threshold (← a[1]!.getNat?)
+    | "debug" => return .debug (← a[1]!.getNat?)
+    | "traceback" => return .traceback (← a[1]!.getNat?) (← a[2]!.getNat?)
+    | "other" => return .other
+    | _ => throw s!"bad feature {tag}")
+  let wb ← J.nat! j "warnAfterBody"
+  let r := Ztr.Bracket.run feats (fun g => { g with warn := wb }) g
+  return Json.mkObj [("g", jNats [r.gcThr, r.gcDbg, r.tbFormat, r.tbPrint, r.trace, r.thrTrace, r.setTrace,
+    r.profile, r.warn, r.stdout, r.stderr])]
+
 def dispatch (j : Json) : Except String Json := do
   let op ← J.str! j "op"
   match op with
@@ -364,6 +390,7 @@ def dispatch (j : Json) : Except String Json := do
   | "sccs" => opSccs j
   | "bytecode" => opBytecode j
   | "threads" => opThreads j
+  | "bracket" => opBracket j
   | "world" => opWorld j
   | "proto" => opProto j
   | "suites" => opSuites j
